@@ -190,17 +190,11 @@ Maint == Is("maint") /\ Apply(R, Nop, Maintained, NoPost)
 \*   F21  entries restored from a snapshot are never announced to the policy;
 \*   F16  write events beyond the 512 slots of a shard's event buffer are dropped, the
 \*        policy never learns those keys.
-\*   FC4  TinyLFU's evict only drains the main segment (root cause POL-F28): the keys in the
-\*        admission window of every shard (up to max(1, 1%) of the shard's capacity each) are
-\*        never nominated, so with several shards and a small capacity the windows alone
-\*        exceed the capacity.
-WindowCost == LET sc == (cfg.cap + cfg.shards - 1) \div cfg.shards IN IF sc < 150 THEN 1 ELSE (sc + 50) \div 100
 CapDevs(L, a) ==
   (IF Dev("F17") /\ a.drift < 0 /\ Resident(L) + a.drift <= cfg.cap THEN {"F17"} ELSE {})
   \cup (IF Dev("FC3") /\ cfg.policy = "arc" THEN {"FC3"} ELSE {})
   \cup (IF Dev("F21") /\ \E k \in a.unknown : Present(L, k) THEN {"F21"} ELSE {})
   \cup (IF Dev("F16") /\ a.lossy THEN {"F16"} ELSE {})
-  \cup (IF Dev("FC4") /\ cfg.policy \in {"tinylfu", "default"} /\ Resident(L) <= cfg.shards * WindowCost THEN {"FC4"} ELSE {})
 CapPost(L, a) == [ok |-> CapacityOK(L) \/ CapDevs(L, a) # {}, devs |-> IF CapacityOK(L) THEN {} ELSE CapDevs(L, a)]
 Quiet ==
   /\ Is("quiet")
